@@ -107,6 +107,7 @@ PROPS = {
     ),
     'C16': dict(
         units=['disp', 'swt', 'index'],
+        replay_units=['tableapi'],
         kani_quick=[],
         kani_thorough=['id_axioms_u32', 'uf_reset', 'offsets_intersect_dense_dense', 'offsets_scan_for_offset', 'offsets_binary_search_from'],
         design_ref='DESIGN.md section 4 (U-DISP, U-SWT, U-OFF) and section 5 C16',
